@@ -11,7 +11,7 @@ import (
 func init() { register("C08", propC08) }
 
 func propC08(c *Check) {
-	c.Explain = "Decides totality and the point-validity gates of peer message parsing: (1) panic-site inventory with guard discharge from parseNetworkMessage over everything it reaches (transaction / snapshot decoders, parseTransactionsPayload, unmarshalSyncPoints): every index, slice bound, conversion, make and documented library panic is discharged by interval facts on len(data) established by the size gates of the same case (len(data[k:]) is normalised to len(data)-k), loop shapes, or the reviewed table /verif/tables/nopanic_C08.tsv; (2) every crypto.Key destination filled from wire bytes that the protocol later uses as a curve point (Commitment in announcement / commitment / full challenge, Challenge in full challenge, each pre-commitment) is gated by CheckKey() before the message is returned; an unsigned full challenge (nil snapshot signature) is rejected; (3) class table: every PeerMessageType* constant emitted by a build*Message function has a case in parseNetworkMessage, and the transaction bundle count fits its single count byte (SnapshotTransactionsMaximum <= 255 with the builder's panic above it)."
+	c.Explain = "Decides totality and the point-validity gates of peer message parsing: (1) panic-site inventory with guard discharge from parseNetworkMessage over everything it reaches (transaction / snapshot decoders, parseTransactionsPayload, unmarshalSyncPoints): every index, slice bound, conversion, make and documented library panic is discharged by interval facts on len(data) established by the size gates of the same case (len(data[k:]) is normalised to len(data)-k), loop shapes, or the reviewed table /verif/tables/nopanic_C08.tsv; (2) every crypto.Key destination filled from wire bytes that the protocol later uses as a curve point (Commitment in announcement / commitment / full challenge, Challenge in full challenge, each pre-commitment) is gated by CheckKey() before the message is returned; an unsigned full challenge (nil snapshot signature) is rejected; (3) class table: every PeerMessageType* constant emitted by a build*Message function has a case in parseNetworkMessage, and the transaction bundle count fits its single count byte (SnapshotTransactionsMaximum <= 255 with the builder's panic above it). Integer width model of the panic inventory: conversions are looked through only when value-preserving and sums in types narrower than the word are monotone only when wrapping is excluded by operand type bounds or by a dominating len(P[k:]) >= S guard. Builder/parser limit agreement: the largest commitment count buildCommitmentsMessage emits is admitted by the parser and fits the count field."
 	c.NotCov = "field-by-field round-trip equality of built and parsed messages (offset algebra); only the tag table, the count byte and the parse-side gates are decided."
 	w := c.W
 	f := c.F("p2p.parseNetworkMessage")
@@ -180,6 +180,10 @@ func propC08(c *Check) {
 		c.Require(okb && okp && pmax >= bmax && bmax <= 65535, "sibling", "p2p|commitment count limit: parser admits what the builder emits",
 			"the largest pre-commitment count buildCommitmentsMessage emits (its panic bound) is admitted by parseNetworkMessage and fits the 16-bit count field",
 			fmt.Sprintf("builder admits up to %d (found=%v), parser admits up to %d (found=%v)", bmax, okb, pmax, okp), bsite, psite)
+		// the per-key offset 67+32*i is computed in the count's 16-bit type: it must not wrap for any admitted count
+		c.Require(okp && 67+32*(pmax-1) <= 65535, "constfact", "p2p|commitment offset arithmetic fits 16 bits",
+			"for the largest admitted count M, 67+32*(M-1) <= 65535 (the offset expression is evaluated in uint16 and would silently wrap to an earlier key otherwise)",
+			fmt.Sprintf("parser admits up to %d commitments", pmax), psite)
 	}
 	stm, _ := w.ConstVal("common", "SnapshotTransactionsMaximum")
 	c.Require(stm <= 255, "constfact", "p2p|bundle count byte", "the bundle count fits the single count byte", "SnapshotTransactionsMaximum = "+itoa(int(stm)))
